@@ -294,11 +294,14 @@ func init() {
 	}
 	models["math/bits.TrailingZeros"] = models["math/bits.TrailingZeros64"]
 	models["math/bits.OnesCount64"] = func(f *Frame, args []*SVal, rt types.Type, pos token.Pos) *SVal {
-		f.used("math/bits.OnesCount64: n in [0,64]; n==0 <=> x==0; n==64 <=> x==^0")
+		f.used("math/bits.OnesCount64 is an uninterpreted function popcnt64 with: 0 <= n <= 64; n==0 <=> x==0; n==64 <=> x==^0; setting a clear bit adds one, clearing a set bit removes one (stated at use sites)")
 		g := f.g
+		g.declareUF("popcnt64", "((_ BitVec 64)) (_ BitVec 64)")
 		x := args[0].Term
-		n := g.fresh("popcnt", SBV64)
-		g.assume(f.curReach, sAnd(sApp("bvule", n, bv64(64)), sEq(sEq(n, bv64(0)), sEq(x, bv64(0))), sEq(sEq(n, bv64(64)), sEq(x, bv64(-1)))))
+		n := sApp("popcnt64", x)
+		if g.inQuant == 0 {
+			g.addAxiom(sAnd(sApp("bvule", n, bv64(64)), sEq(sEq(n, bv64(0)), sEq(x, bv64(0))), sEq(sEq(n, bv64(64)), sEq(x, bv64(-1)))))
+		}
 		return scalar(rt, KInt, n)
 	}
 	models["math/bits.OnesCount"] = models["math/bits.OnesCount64"]
